@@ -1782,6 +1782,8 @@ impl Monitor {
                 let m = &mut self.srcs[*src];
                 m.pings = 1;
                 m.stream_yielded = true;
+                // the stream itself declared "nothing ready right now": what was owed in this dispatch is owed in the next
+                m.touched = true;
                 self.facts.stream_self_wakes += 1;
                 None
             }
@@ -1984,14 +1986,14 @@ impl Monitor {
                     let m = &self.srcs[s];
                     // C06: the end of the stream is one of the ways a source leaves the loop
                     if m.stream_polled && m.taint.is_none() && m.closed_delivered && m.st == St::Inserted && *ret != PRet::Remove && *ret != PRet::Err {
-                        return viol("C06.stream_end", &["C06"], format!("stream #{s} delivered its end of stream but asked for {ret:?} instead of its removal"));
+                        return viol("C06.stream_end", &["C06", "C10"], format!("stream #{s} delivered its end of stream but asked for {ret:?} instead of its removal"));
                     }
                     // the stream is polled until it is pending: a wake-up that leaves ready items behind loses them
                     // (nothing will wake the source for them again)
                     if m.stream_polled && !m.stream_yielded && m.taint.is_none() && *ret != PRet::Err && !m.closed_delivered && (!m.queue.is_empty() || m.stream_ended) {
                         return viol(
                             "C02.stream_drain",
-                            &["C02"],
+                            &["C02", "C10"],
                             format!("stream #{s} finished processing with {} ready item(s) undelivered (ended: {})", m.queue.len(), m.stream_ended),
                         );
                     }
@@ -2237,6 +2239,7 @@ impl Monitor {
                             if missing && m.st == St::Inserted && m.enabled {
                                 let (rule, props): (&str, &[&'static str]) = match &m.kind {
                                     Kind::Timer { .. } => ("C05.window", &["C05", "C02", "C15"]),
+                                    Kind::Stream | Kind::Exec => ("C02.owed", &["C02", "C07", "C15", "C10"]),
                                     _ => ("C02.owed", &["C02", "C07", "C15", "C03", "C04"]),
                                 };
                                 let renum = m.renumbered_in_disp;
